@@ -1,0 +1,558 @@
+//! Verification facade, compiled only with the cargo feature `verif`.
+//!
+//! Everything in here is *additive instrumentation* used by the external model-checking harness
+//! in /verif: re-exports of otherwise private types, a per-thread control block (output capture,
+//! instruction budget, VM trace, contract probes, shadow heap ledger, collector post-conditions,
+//! scheduler yield point). With the feature off none of this exists and the crate is unchanged.
+
+pub use crate::ast::{BlockStmt, Expr, Operator, Stmt};
+pub use crate::gc::GC;
+
+use crate::object::{Error, Object, Type};
+use std::cell::RefCell;
+use std::collections::HashMap;
+use std::fmt::Write;
+
+/// An out-of-contract access caught by a probe (instead of executing undefined behaviour).
+#[derive(Clone, Debug, PartialEq)]
+pub struct Breach {
+    pub site: &'static str,
+    pub ip: usize,
+    pub detail: String,
+}
+
+/// One record per executed instruction (when tracing is on).
+#[derive(Clone, Copy, Debug, PartialEq, Eq, Hash)]
+pub struct TraceRec {
+    pub ip: u32,
+    pub op: u8,
+    pub sp: u32,
+    pub bp: u32,
+    pub frames: u32,
+}
+
+/// A heap-discipline violation seen by the shadow heap or the collector post-condition.
+#[derive(Clone, Debug, PartialEq)]
+pub struct HeapEvent {
+    /// "use-after-free" | "double-free" | "reachable-freed" | "unreachable-survivor"
+    pub kind: &'static str,
+    pub addr: usize,
+    pub serial: u64,
+    pub step: u64,
+}
+
+#[derive(Clone, Copy, Debug, Default, PartialEq)]
+pub struct GcStats {
+    /// completed mark & sweep cycles (GC::run that did not return early)
+    pub runs: u64,
+    /// cycles during which at least one managed object was reachable
+    pub runs_with_live: u64,
+    /// cycles that released at least one object
+    pub runs_that_freed: u64,
+    pub max_managed: usize,
+}
+
+#[derive(Clone, Copy, PartialEq)]
+enum BoxState {
+    Alive,
+    Dead,
+}
+
+struct BoxRec {
+    serial: u64,
+    state: BoxState,
+}
+
+struct Ctl {
+    capture: bool,
+    out: String,
+    budget: Option<u64>,
+    steps: u64,
+    trace_on: bool,
+    trace: Vec<TraceRec>,
+    breaches: Vec<Breach>,
+    yield_fn: Option<fn()>,
+    ledger_on: bool,
+    bypass: bool,
+    serial: u64,
+    boxes: HashMap<usize, BoxRec>,
+    quarantine: Vec<Object>,
+    heap_events: Vec<HeapEvent>,
+    allocated: u64,
+    destroyed: u64,
+    gc_stats: GcStats,
+    gc_check: bool,
+}
+
+impl Ctl {
+    fn new() -> Self {
+        Ctl {
+            capture: false,
+            out: String::new(),
+            budget: None,
+            steps: 0,
+            trace_on: false,
+            trace: Vec::new(),
+            breaches: Vec::new(),
+            yield_fn: None,
+            ledger_on: false,
+            bypass: false,
+            serial: 0,
+            boxes: HashMap::new(),
+            quarantine: Vec::new(),
+            heap_events: Vec::new(),
+            allocated: 0,
+            destroyed: 0,
+            gc_stats: GcStats::default(),
+            gc_check: false,
+        }
+    }
+}
+
+thread_local! {
+    static CTL: RefCell<Ctl> = RefCell::new(Ctl::new());
+}
+
+fn with<R>(f: impl FnOnce(&mut Ctl) -> R) -> R {
+    CTL.with(|c| f(&mut c.borrow_mut()))
+}
+
+pub const BUDGET_MSG: &str = "verif: budget";
+pub const BREACH_MSG: &str = "verif: breach";
+
+// ---------------------------------------------------------------------------------------------
+// harness-facing controls
+// ---------------------------------------------------------------------------------------------
+
+/// Back to defaults (everything off). Quarantined boxes are really released first.
+pub fn reset() {
+    ledger_release();
+    with(|c| *c = Ctl::new());
+}
+
+pub fn capture_start() {
+    with(|c| {
+        c.capture = true;
+        c.out.clear();
+    })
+}
+
+pub fn capture_take() -> String {
+    with(|c| std::mem::take(&mut c.out))
+}
+
+/// `Some(n)`: the VM returns `Err(TypeError("verif: budget"))` instead of executing instruction n+1.
+pub fn set_budget(b: Option<u64>) {
+    with(|c| {
+        c.budget = b;
+        c.steps = 0;
+    })
+}
+
+/// Instructions executed since the last `set_budget`/`reset`.
+pub fn steps() -> u64 {
+    with(|c| c.steps)
+}
+
+pub fn trace_start() {
+    with(|c| {
+        c.trace_on = true;
+        c.trace.clear();
+    })
+}
+
+pub fn trace_take() -> Vec<TraceRec> {
+    with(|c| std::mem::take(&mut c.trace))
+}
+
+pub fn breaches_take() -> Vec<Breach> {
+    with(|c| std::mem::take(&mut c.breaches))
+}
+
+pub fn set_yield(f: Option<fn()>) {
+    with(|c| c.yield_fn = f)
+}
+
+/// Turns on the shadow heap: every box allocated from now on is registered; destroying a
+/// registered box marks it dead and quarantines it (the memory stays mapped and initialised, so a
+/// stale pointer can be followed safely and is flagged); `ledger_release` frees them for real.
+pub fn ledger_start() {
+    with(|c| {
+        c.ledger_on = true;
+        c.gc_check = true;
+    })
+}
+
+/// Addresses and serials of registered boxes that have not been destroyed.
+pub fn ledger_alive() -> Vec<(usize, u64)> {
+    with(|c| {
+        let mut v: Vec<(usize, u64)> = c
+            .boxes
+            .iter()
+            .filter(|(_, r)| r.state == BoxState::Alive)
+            .map(|(a, r)| (*a, r.serial))
+            .collect();
+        v.sort_by_key(|x| x.1);
+        v
+    })
+}
+
+/// (boxes allocated, boxes destroyed) while the ledger was on.
+pub fn ledger_counts() -> (u64, u64) {
+    with(|c| (c.allocated, c.destroyed))
+}
+
+pub fn heap_events_take() -> Vec<HeapEvent> {
+    with(|c| std::mem::take(&mut c.heap_events))
+}
+
+pub fn gc_stats_take() -> GcStats {
+    with(|c| std::mem::take(&mut c.gc_stats))
+}
+
+/// Is this (heap) object registered and not destroyed? Unregistered objects count as alive.
+pub fn is_alive(o: Object) -> bool {
+    if !o.is_heap_allocated() {
+        return true;
+    }
+    let addr = o.as_ptr() as usize;
+    with(|c| match c.boxes.get(&addr) {
+        Some(r) => r.state == BoxState::Alive,
+        None => true,
+    })
+}
+
+/// Serial number (allocation order) of a registered box.
+pub fn serial_of(o: Object) -> Option<u64> {
+    if !o.is_heap_allocated() {
+        return None;
+    }
+    let addr = o.as_ptr() as usize;
+    with(|c| c.boxes.get(&addr).map(|r| r.serial))
+}
+
+/// Really frees every quarantined box and forgets the dead records.
+pub fn ledger_release() {
+    let q = with(|c| {
+        c.bypass = true;
+        std::mem::take(&mut c.quarantine)
+    });
+    for o in q {
+        o.free();
+    }
+    with(|c| {
+        c.bypass = false;
+        c.boxes.retain(|_, r| r.state == BoxState::Alive);
+    });
+}
+
+/// Forget every record (used after the harness has accounted for what is left).
+pub fn ledger_forget() {
+    ledger_release();
+    with(|c| {
+        c.boxes.clear();
+        c.allocated = 0;
+        c.destroyed = 0;
+    })
+}
+
+/// Structural rendering that never follows a dead pointer and terminates on cycles.
+pub fn render(o: Object) -> String {
+    let mut s = String::new();
+    let mut path = Vec::new();
+    render_into(o, &mut s, &mut path);
+    s
+}
+
+fn render_into(o: Object, s: &mut String, path: &mut Vec<usize>) {
+    if o.is_heap_allocated() && !is_alive(o) {
+        let _ = write!(s, "DEAD<{}>", o.tag());
+        return;
+    }
+    match o.tag() {
+        Type::Null => s.push_str("null"),
+        Type::Bool => s.push_str(if o.as_bool() { "ja" } else { "nee" }),
+        Type::Int => {
+            let _ = write!(s, "{}", o.as_int());
+        }
+        Type::Function => {
+            let [ip, n] = o.as_function();
+            let _ = write!(s, "fn@{ip}/{n}");
+        }
+        Type::Float => {
+            let _ = write!(s, "f{:016x}", o.as_f64().to_bits());
+        }
+        Type::String => {
+            let _ = write!(s, "{:?}", o.as_str());
+        }
+        Type::Array => {
+            let addr = o.as_ptr() as usize;
+            if let Some(pos) = path.iter().position(|a| *a == addr) {
+                let _ = write!(s, "^{}", path.len() - pos);
+                return;
+            }
+            path.push(addr);
+            s.push('[');
+            for (i, v) in o.as_vec().iter().enumerate() {
+                if i > 0 {
+                    s.push(',');
+                }
+                render_into(*v, s, path);
+            }
+            s.push(']');
+            path.pop();
+        }
+    }
+}
+
+/// Debug rendering of the token stream of `input`, with the byte span of every token.
+pub fn tokens(input: &str) -> Vec<(String, usize, usize)> {
+    crate::lexer::verif_tokens(input)
+}
+
+/// `(byte, name, operand widths)` for every opcode, generated from the real tables.
+pub fn opcodes() -> Vec<(u8, String, Vec<usize>)> {
+    crate::compiler::verif_opcodes()
+}
+
+// ---------------------------------------------------------------------------------------------
+// crate-facing hook entry points
+// ---------------------------------------------------------------------------------------------
+
+pub(crate) fn emit(args: std::fmt::Arguments) {
+    let captured = with(|c| {
+        if c.capture {
+            let _ = c.out.write_fmt(args);
+            true
+        } else {
+            false
+        }
+    });
+    if !captured {
+        std::print!("{}", args);
+    }
+}
+
+pub(crate) fn breach(site: &'static str, ip: usize, detail: String) {
+    with(|c| {
+        if c.breaches.len() < 16 {
+            c.breaches.push(Breach { site, ip, detail })
+        }
+    })
+}
+
+/// Called at the head of the VM loop, before the instruction at `ip` is fetched.
+#[inline]
+pub(crate) fn step(ip: usize, code: &[u8], sp: usize, bp: u16, frames: usize) -> Option<Error> {
+    let (y, r) = with(|c| {
+        if !c.breaches.is_empty() {
+            return (None, Some(Error::TypeError(BREACH_MSG.to_string())));
+        }
+        if let Some(b) = c.budget {
+            if c.steps >= b {
+                return (None, Some(Error::TypeError(BUDGET_MSG.to_string())));
+            }
+        }
+        // contract of the unchecked fetch: opcode byte and all of its operand bytes are in bounds
+        match code.get(ip) {
+            None => {
+                c.breaches.push(Breach {
+                    site: "fetch-oob",
+                    ip,
+                    detail: format!("len={}", code.len()),
+                });
+                return (None, Some(Error::TypeError(BREACH_MSG.to_string())));
+            }
+            Some(byte) => match crate::compiler::verif_operand_len(*byte) {
+                None => {
+                    c.breaches.push(Breach {
+                        site: "bad-opcode",
+                        ip,
+                        detail: format!("byte={byte}"),
+                    });
+                    return (None, Some(Error::TypeError(BREACH_MSG.to_string())));
+                }
+                Some(n) => {
+                    if ip + 1 + n > code.len() {
+                        c.breaches.push(Breach {
+                            site: "operand-oob",
+                            ip,
+                            detail: format!("byte={byte} len={}", code.len()),
+                        });
+                        return (None, Some(Error::TypeError(BREACH_MSG.to_string())));
+                    }
+                }
+            },
+        }
+        c.steps += 1;
+        if c.trace_on {
+            c.trace.push(TraceRec {
+                ip: ip as u32,
+                op: code[ip],
+                sp: sp as u32,
+                bp: bp as u32,
+                frames: frames as u32,
+            });
+        }
+        (c.yield_fn, None)
+    });
+    if let Some(f) = y {
+        f();
+    }
+    r
+}
+
+/// Scheduler yield point outside the VM loop (between the phases of `eval`).
+pub(crate) fn phase() {
+    let y = with(|c| c.yield_fn);
+    if let Some(f) = y {
+        f();
+    }
+}
+
+pub(crate) fn on_alloc(ptr: *mut u8) {
+    with(|c| {
+        if c.ledger_on {
+            c.serial += 1;
+            c.allocated += 1;
+            let serial = c.serial;
+            c.boxes.insert(
+                ptr as usize,
+                BoxRec {
+                    serial,
+                    state: BoxState::Alive,
+                },
+            );
+        }
+    })
+}
+
+/// Returns true if the real destruction must be skipped (the box was quarantined, or this is a
+/// second destruction of the same box).
+pub(crate) fn on_destroy(o: Object) -> bool {
+    let addr = o.as_ptr() as usize;
+    with(|c| {
+        if !c.ledger_on || c.bypass {
+            return false;
+        }
+        let step = c.steps;
+        match c.boxes.get_mut(&addr) {
+            None => false,
+            Some(r) if r.state == BoxState::Dead => {
+                let serial = r.serial;
+                c.heap_events.push(HeapEvent {
+                    kind: "double-free",
+                    addr,
+                    serial,
+                    step,
+                });
+                true
+            }
+            Some(r) => {
+                r.state = BoxState::Dead;
+                c.destroyed += 1;
+                c.quarantine.push(o);
+                true
+            }
+        }
+    })
+}
+
+pub(crate) fn on_deref(ptr: *mut u8) {
+    let addr = ptr as usize;
+    with(|c| {
+        if !c.ledger_on || c.bypass {
+            return;
+        }
+        if let Some(r) = c.boxes.get(&addr) {
+            if r.state == BoxState::Dead && c.heap_events.len() < 64 {
+                let serial = r.serial;
+                let step = c.steps;
+                c.heap_events.push(HeapEvent {
+                    kind: "use-after-free",
+                    addr,
+                    serial,
+                    step,
+                });
+            }
+        }
+    })
+}
+
+/// Post-condition of a completed mark & sweep cycle: everything reachable from the roots is
+/// still allocated, and nothing the collector still manages is unreachable.
+pub(crate) fn on_gc_run(roots: &[&[Object]], managed_before: usize, survivors: &[Object]) {
+    let check = with(|c| c.gc_check);
+    let mut reach: Vec<usize> = Vec::new();
+    let mut dead_reach: Vec<usize> = Vec::new();
+    if check {
+        let mut work: Vec<Object> = Vec::new();
+        for r in roots {
+            for o in r.iter() {
+                if o.is_heap_allocated() {
+                    work.push(*o);
+                }
+            }
+        }
+        while let Some(o) = work.pop() {
+            let addr = o.as_ptr() as usize;
+            if reach.contains(&addr) || dead_reach.contains(&addr) {
+                continue;
+            }
+            if !is_alive(o) {
+                dead_reach.push(addr);
+                continue;
+            }
+            reach.push(addr);
+            if o.tag() == Type::Array {
+                for v in o.as_vec() {
+                    if v.is_heap_allocated() {
+                        work.push(*v);
+                    }
+                }
+            }
+        }
+    }
+    with(|c| {
+        c.gc_stats.runs += 1;
+        if managed_before > c.gc_stats.max_managed {
+            c.gc_stats.max_managed = managed_before;
+        }
+        if survivors.len() < managed_before {
+            c.gc_stats.runs_that_freed += 1;
+        }
+        if !check {
+            return;
+        }
+        let step = c.steps;
+        let mut any_live = false;
+        for s in survivors {
+            let addr = s.as_ptr() as usize;
+            if reach.contains(&addr) {
+                any_live = true;
+            } else if c.heap_events.len() < 64 {
+                let serial = c.boxes.get(&addr).map(|r| r.serial).unwrap_or(0);
+                c.heap_events.push(HeapEvent {
+                    kind: "unreachable-survivor",
+                    addr,
+                    serial,
+                    step,
+                });
+            }
+        }
+        if any_live {
+            c.gc_stats.runs_with_live += 1;
+        }
+        for addr in dead_reach {
+            if c.heap_events.len() < 64 {
+                let serial = c.boxes.get(&addr).map(|r| r.serial).unwrap_or(0);
+                c.heap_events.push(HeapEvent {
+                    kind: "reachable-freed",
+                    addr,
+                    serial,
+                    step,
+                });
+            }
+        }
+    })
+}
